@@ -388,6 +388,10 @@ func init() {
 		}
 		done(ex.boolC(false))
 	})
+	// time.AfterFunc: the callback never runs within a harness (timers of this kind are not modelled; stated cut)
+	reg("time.AfterFunc", func(ex *Exec, g *G, fn *ssa.Function, args []Value, done func(Value)) {
+		done(Ptr{})
+	})
 	reg("crypto/md5.New", func(ex *Exec, g *G, fn *ssa.Function, args []Value, done func(Value)) {
 		done(IfaceV{V: &HashObj{}})
 	})
